@@ -226,6 +226,11 @@ def check_tables(exp: Expect, tables: list[dict]) -> list[tuple[str, str]]:
                 elif "v" in wc:
                     if not _value_eq(wc["v"], gv):
                         bad = (i, j, wc["v"], gv)
+                elif "lines" in wc:
+                    # paragraphs of a cell, blank ones included: one line each, in order (trailing white space of a line is not claimed)
+                    got_lines = [ln.rstrip() for ln in gv.split("\n")] if isinstance(gv, str) else None
+                    if got_lines != wc["lines"]:
+                        bad = (i, j, wc["lines"], gv)
                 # {"any": True}: no claim on this cell
                 if bad:
                     break
